@@ -343,6 +343,7 @@ pub fn find_chrom<'a>(v: &'a [ChromInfo], chrom_name: &Name) -> (r: Option<&'a C
 //@extract fn bigtools/src/utils/cli/bigwigtobedgraph.rs write_bg_singlethreaded
 //@rule R16
 //@rule R7
+//@rule R15
 //@sub /write_bg_singlethreaded<R: SeekableRead \+ Send \+ 'static>/ => write_bg_singlethreaded min=1
 //@sub /mut bigwig: BigWigRead<R>/ => bigwig: &mut Reader<Value> min=1
 //@sub /out_file: File/ => out_file: &mut Out min=1
@@ -383,7 +384,7 @@ pub fn find_chrom<'a>(v: &'a [ChromInfo], chrom_name: &Name) -> (r: Option<&'a C
 //@loop 1
         invariant
             [[L: bg_st/loop/frame]]
-            bigwig.file() == f0, bigwig.table() == old(bigwig).table(), s_ == start, e_ == end,
+            bigwig.file() == f0, bigwig.table() == old(bigwig).table(),
             wanted(old(bigwig).table(), chrom0) == Some(chroms@),
             [[L: bg_st/loop/text_so_far]]
             writer.lines() == l0 + all_text::<Value>(f0, chroms@, i__1 as int, s_, e_),
@@ -414,15 +415,18 @@ pub fn find_chrom<'a>(v: &'a [ChromInfo], chrom_name: &Name) -> (r: Option<&'a C
 
 /// `bigbedtobed --zoom N` (summary rows of a zoom level instead of records): NOT part of C16.  The whole
 /// `if let Some(zoom) = zoom { .. }` branch of write_bed_singlethreaded is replaced by a call of this stub
-/// (nothing promised except that the reader still serves the same file).
+/// (nothing promised except that the reader still serves the same file; `start`/`end` are handed on as whatever the
+/// locals of those names are at that point -- `Option<u32>` on /repo, plain `u32` after an edit that resolves the
+/// defaults earlier).
 #[verifier::external_body]
-pub fn zoom_mode(bigbed: &mut Reader<BedEntry>, writer: &mut Out, chroms: Vec<ChromInfo>, start: Option<u32>, end: Option<u32>, zoom: u32) -> (r: Result<(), AnyErr>)
+pub fn zoom_mode<S, E>(bigbed: &mut Reader<BedEntry>, writer: &mut Out, chroms: Vec<ChromInfo>, start: S, end: E, zoom: u32) -> (r: Result<(), AnyErr>)
     ensures final(bigbed).file() == old(bigbed).file() && final(bigbed).table() == old(bigbed).table(),
 { unimplemented!() }
 #[verifier::loop_isolation(false)]
 //@extract fn bigtools/src/utils/cli/bigbedtobed.rs write_bed_singlethreaded
 //@rule R16
 //@rule R7
+//@rule R15
 //@presub /if let Some\(zoom\) = zoom \{\n.*?\n    \} else \{\n/ => if let Some(zoom) = zoom {\n        return zoom_mode(bigbed, writer, chroms, start, end, zoom);\n    } else {\n min=1 count=1
 //@sub /write_bed_singlethreaded<R: Reopen \+ SeekableRead>/ => write_bed_singlethreaded min=1
 //@sub /mut bigbed: BigBedRead<R>/ => bigbed: &mut Reader<BedEntry> min=1
@@ -465,7 +469,7 @@ pub fn zoom_mode(bigbed: &mut Reader<BedEntry>, writer: &mut Out, chroms: Vec<Ch
 //@loop 1
         invariant
             [[L: bed_st/loop/frame]]
-            bigbed.file() == f0, bigbed.table() == old(bigbed).table(), s_ == start, e_ == end,
+            bigbed.file() == f0, bigbed.table() == old(bigbed).table(),
             wanted(old(bigbed).table(), chrom0) == Some(chroms@),
             [[L: bed_st/loop/line_buffer_empty_between_chromosomes]]
             buf.text() == Seq::<Piece>::empty(),
